@@ -15,8 +15,9 @@
 //! `LogicalPlan` equality; a plan equal to P needs no run) is handed to the default
 //! physical planner **without further logical optimization**
 //! (`state.query_planner().create_physical_plan`) and executed on each of the 12 rich
-//! databases (the tables are MemTables whose single partition is swapped in place, so one
-//! logical plan serves every database).
+//! databases and on every database DB(n, D) over the tables the query reads inside a
+//! budgeted bound (the tables are MemTables whose single partition is swapped in place, so
+//! one logical plan serves every database).
 //!
 //! Oracle: (i) schema — same number of fields, same field names, logically equivalent
 //! types (dictionary / run-end encoding erased; Utf8 = LargeUtf8 = Utf8View; binary
@@ -51,6 +52,41 @@ use std::collections::BTreeMap;
 use std::sync::{Arc, Mutex};
 
 type Rule = Arc<dyn OptimizerRule + Send + Sync>;
+
+// ------------------------------------------------------------------ self-test plant
+
+/// `c03 --plant limit` (self-test of the check, never part of a normal run): appends a deliberately
+/// wrong rule to the default list — `LIMIT 1` becomes `LIMIT 2` — which the check must report
+/// (`alone:planted_limit_one_to_two`, the prefix / minus pipelines containing it, and `full`).
+static PLANT: std::sync::OnceLock<Option<String>> = std::sync::OnceLock::new();
+
+#[derive(Debug, Default)]
+struct PlantedLimitOneToTwo;
+
+impl OptimizerRule for PlantedLimitOneToTwo {
+    fn name(&self) -> &str {
+        "planted_limit_one_to_two"
+    }
+    fn apply_order(&self) -> Option<datafusion::optimizer::ApplyOrder> {
+        Some(datafusion::optimizer::ApplyOrder::TopDown)
+    }
+    fn rewrite(
+        &self,
+        plan: LogicalPlan,
+        _config: &dyn datafusion::optimizer::OptimizerConfig,
+    ) -> datafusion::common::Result<datafusion::common::tree_node::Transformed<LogicalPlan>> {
+        use datafusion::common::ScalarValue;
+        use datafusion::common::tree_node::Transformed;
+        use datafusion::logical_expr::{Expr, Limit};
+        if let LogicalPlan::Limit(l) = &plan {
+            if let Some(Expr::Literal(ScalarValue::Int64(Some(1)), _)) = l.fetch.as_deref() {
+                let fetch = Some(Box::new(Expr::Literal(ScalarValue::Int64(Some(2)), None)));
+                return Ok(Transformed::yes(LogicalPlan::Limit(Limit { skip: l.skip.clone(), fetch, input: Arc::clone(&l.input) })));
+            }
+        }
+        Ok(Transformed::no(plan))
+    }
+}
 
 // ------------------------------------------------------------------ pipelines
 
@@ -95,6 +131,16 @@ fn pipelines(rule_names: &[String]) -> Vec<Pipeline> {
     out
 }
 
+/// Session configuration under which the pipelines run.
+#[derive(Clone, Copy, Debug, PartialEq, Eq, Hash, PartialOrd, Ord, Serialize, Deserialize, Default)]
+enum Mode {
+    /// defaults (target_partitions = 1): `unions_to_filter` and `filter_null_join_keys` are switched off by their options
+    #[default]
+    Default,
+    /// `optimizer.enable_unions_to_filter = true`, `optimizer.filter_null_join_keys = true`: the two option-gated rules act
+    GatedRulesOn,
+}
+
 // ------------------------------------------------------------------ engine side
 
 /// A session whose three MemTables (1 partition each) can be re-loaded in place.
@@ -105,15 +151,23 @@ struct Worker {
 }
 
 impl Worker {
-    fn new() -> Worker {
-        let ctx = SessionContext::new_with_config(engine::default_config());
+    fn new(mode: Mode) -> Worker {
+        let mut cfg = engine::default_config();
+        if mode == Mode::GatedRulesOn {
+            cfg.options_mut().optimizer.enable_unions_to_filter = true;
+            cfg.options_mut().optimizer.filter_null_join_keys = true;
+        }
+        let ctx = SessionContext::new_with_config(cfg);
         let mut tables = vec![];
         for t in &Database::empty().tables {
             let mt = Arc::new(MemTable::try_new(engine::arrow_schema(t, TextEncoding::View), vec![vec![]]).expect("MemTable"));
             ctx.register_table(t.name.as_str(), mt.clone()).expect("register_table");
             tables.push((t.name.clone(), mt));
         }
-        let rules = ctx.state().optimizers().to_vec();
+        let mut rules = ctx.state().optimizers().to_vec();
+        if PLANT.get().and_then(|p| p.as_deref()) == Some("limit") {
+            rules.push(Arc::new(PlantedLimitOneToTwo));
+        }
         Worker { ctx, tables, rules }
     }
     fn rule_names(&self) -> Vec<String> {
@@ -381,20 +435,23 @@ struct Case {
     db_label: String,
     db: Database,
     pipeline: Pipeline,
+    #[serde(default)]
+    mode: Mode,
 }
 
 fn run_case(c: &Case) -> Result<(), String> {
-    let w = Worker::new();
+    let w = Worker::new(c.mode);
     w.load(&c.db);
     let full = Pipeline { name: "full".into(), rules: w.rule_names(), session: false };
     let pipes = vec![Pipeline { name: "none".into(), rules: vec![], session: false }, full, c.pipeline.clone()];
     let pl = plan_query(&w, &c.sql, &pipes)?;
     let head = |what: String| {
         format!(
-            "{} on {} under pipeline [{}]: {what}\n--- analyzed plan\n{}\n--- optimized plan\n{}",
+            "{} on {} under pipeline [{}] ({:?} configuration): {what}\n--- analyzed plan\n{}\n--- optimized plan\n{}",
             c.sql,
             c.db.show(),
             c.pipeline.name,
+            c.mode,
             pl.analyzed.display_indent(),
             pl.outs[2].as_ref().map(|p| format!("{}", p.display_indent())).unwrap_or_else(|e| e.clone())
         )
@@ -422,6 +479,158 @@ fn replay(v: &Json) -> Result<(), String> {
     run_case(&c)
 }
 
+/// Hand-written additions to grammar G: shapes that the rules which never fire on G look for
+/// (LIMIT 0 / OFFSET 0, constant-false filters and joins, duplicated sort / group keys, constant
+/// group keys, repeated sub-expressions, UNION branches differing only by their filter).
+fn extra_queries() -> Vec<GenQuery> {
+    use chk_sql::sqlmc::ast::*;
+    let (a, b) = (|| col("a"), || col("b"));
+    let (ta, tb, ua, uc) = (|| qcol("t", "a"), || qcol("t", "b"), || qcol("u", "a"), || qcol("u", "c"));
+    let mut out: Vec<Query> = vec![];
+    // eliminate_limit / propagate_empty_relation
+    out.push(Select::new(vec![item(a()), item(b())], table("t")).query().limit(0));
+    out.push(Select::new(vec![item(a()), item(b())], table("t")).query().order(vec![OrderItem::asc(a()), OrderItem::asc(b())]).offset(0));
+    out.push(Select::new(vec![item_as(count_star(), "n")], subquery_as(Select::new(vec![item(a())], table("t")).query().limit(0), "s")).query());
+    out.push(Select::new(vec![item(a())], table("t")).filter(boolean(false)).query().setop(SetOp::Union, true, Select::new(vec![item(a())], table("u")).query()));
+    out.push(
+        Select::new(
+            vec![item_as(ta(), "ta"), item_as(qcol("s", "c"), "sc")],
+            join(JoinKind::Left, table("t"), subquery_as(Select::new(vec![item(a()), item(col("c"))], table("u")).filter(boolean(false)).query(), "s"), eq(ta(), qcol("s", "a"))),
+        )
+        .query(),
+    );
+    out.push(
+        Select::new(
+            vec![item_as(ta(), "ta"), item_as(qcol("s", "c"), "sc")],
+            join(JoinKind::Inner, table("t"), subquery_as(Select::new(vec![item(a()), item(col("c"))], table("u")).query().limit(0), "s"), eq(ta(), qcol("s", "a"))),
+        )
+        .query(),
+    );
+    // eliminate_filter / eliminate_join
+    out.push(Select::new(vec![item(a()), item(b())], table("t")).filter(boolean(true)).query());
+    out.push(Select::new(vec![item(a()), item(b())], table("t")).filter(eq(int(1), int(1))).query());
+    out.push(Select::new(vec![item(a()), item(b())], table("t")).filter(null()).query());
+    for k in [JoinKind::Inner, JoinKind::Left, JoinKind::Full] {
+        out.push(Select::new(vec![item_as(ta(), "ta"), item_as(uc(), "uc")], join(k, table("t"), table("u"), boolean(false))).query());
+    }
+    // eliminate_duplicated_expr
+    out.push(Select::new(vec![item(a()), item(b())], table("t")).query().order(vec![OrderItem::asc(a()), OrderItem::desc(a()), OrderItem::asc(b())]));
+    out.push(Select::new(vec![item(a()), item_as(count_star(), "n")], table("t")).group(vec![a(), a()]).query());
+    // eliminate_group_by_constant
+    out.push(Select::new(vec![item(a()), item_as(agg(AggFn::Sum, b()), "s")], table("t")).group(vec![a(), txt("x")]).query());
+    out.push(Select::new(vec![item_as(count_star(), "n")], table("t")).group(vec![bin(BinOp::Add, int(1), int(1))]).query());
+    // common_sub_expression_eliminate
+    out.push(
+        Select::new(
+            vec![item_as(bin(BinOp::Mul, bin(BinOp::Add, a(), b()), int(2)), "x"), item_as(bin(BinOp::Mul, bin(BinOp::Add, a(), b()), int(3)), "y")],
+            table("t"),
+        )
+        .filter(bin(BinOp::Gt, bin(BinOp::Add, a(), b()), int(2)))
+        .query(),
+    );
+    out.push(
+        Select::new(vec![item(a()), item_as(agg(AggFn::Sum, bin(BinOp::Add, a(), b())), "s"), item_as(agg(AggFn::Max, bin(BinOp::Add, a(), b())), "m")], table("t"))
+            .group(vec![a()])
+            .query(),
+    );
+    // unions_to_filter (acts only with its option on)
+    out.push(Select::new(vec![item(a()), item(b())], table("t")).filter(eq(a(), int(1))).query().setop(SetOp::Union, false, Select::new(vec![item(a()), item(b())], table("t")).filter(eq(b(), int(2))).query()));
+    out.push(
+        Select::new(vec![item(a())], table("t"))
+            .filter(bin(BinOp::Gt, a(), int(1)))
+            .query()
+            .setop(SetOp::Union, false, Select::new(vec![item(a())], table("t")).filter(is_null(b())).query())
+            .setop(SetOp::Union, false, Select::new(vec![item(a())], table("t")).filter(eq(b(), int(1))).query()),
+    );
+    // eliminate_outer_join / push_down_filter around outer joins
+    out.push(Select::new(vec![item_as(ta(), "ta"), item_as(tb(), "tb"), item_as(uc(), "uc")], join(JoinKind::Full, table("t"), table("u"), eq(ta(), ua()))).filter(and(is_not_null(tb()), eq(uc(), txt("a")))).query());
+    // sorted / limited subquery under an aggregate and under a filter
+    out.push(
+        Select::new(vec![item(qcol("s", "b"))], subquery_as(Select::new(vec![item(a()), item(b())], table("t")).query().order(vec![OrderItem::asc(a()), OrderItem::asc(b())]).limit(2), "s"))
+            .filter(bin(BinOp::Gt, qcol("s", "b"), int(1)))
+            .query(),
+    );
+    out.iter().map(|q| grammar::analyse(12, q)).collect()
+}
+
+// ------------------------------------------------------------------ root causes
+
+/// Confirmed engine defects that partial pipelines expose, keyed by root cause.  A failing case is
+/// attributed to one only if the optimized plan has the structural ingredient AND the same pipeline
+/// followed by the rule that removes exactly that ingredient passes.
+///
+/// (A) `DefaultPhysicalPlanner` (datafusion/core/src/physical_planner.rs, `LogicalPlan::Join` arm, branch
+/// `join_on.is_empty()`): a `null_aware` LeftAnti join whose equality still sits in the join *filter*
+/// (what `decorrelate_predicate_subquery` emits before `extract_equijoin_predicate` runs) is planned as a
+/// plain NestedLoopJoinExec; the null-aware (NOT IN) semantics is silently dropped.
+const CAUSE_NULL_AWARE_NLJ: &str = "null-aware-anti-join-without-equijoin-keys-planned-as-plain-nested-loop-join:DefaultPhysicalPlanner(LogicalPlan::Join,join_on.is_empty())";
+/// (B) `EnforceSorting` (datafusion/physical-optimizer/src/ensure_requirements/enforce_sorting/mod.rs,
+/// `remove_corresponding_sort_from_sub_plan`, guarded only by "do not remove sorts with fetch"): a SortExec
+/// below a GlobalLimitExec (through order-preserving nodes) is removed as unnecessary when no ancestor
+/// *requires* the ordering, although the limit makes the order observable.  Reached when a logical
+/// `Limit` is not merged into its `Sort` (`push_down_limit` absent).
+const CAUSE_SORT_UNDER_LIMIT: &str = "sort-below-limit-removed-as-unnecessary:EnforceSorting(remove_corresponding_sort_from_sub_plan)";
+
+fn has_null_aware_join_without_keys(p: &LogicalPlan) -> bool {
+    use datafusion::common::tree_node::{TreeNode, TreeNodeRecursion};
+    let mut hit = false;
+    let _ = p.apply(|n| {
+        if let LogicalPlan::Join(j) = n {
+            if j.null_aware && j.on.is_empty() {
+                hit = true;
+            }
+        }
+        Ok(TreeNodeRecursion::Continue)
+    });
+    hit
+}
+
+fn has_limit_over_plain_sort(p: &LogicalPlan) -> bool {
+    use datafusion::common::tree_node::{TreeNode, TreeNodeRecursion};
+    let mut hit = false;
+    let _ = p.apply(|n| {
+        if let LogicalPlan::Limit(l) = n {
+            let mut cur: &LogicalPlan = l.input.as_ref();
+            loop {
+                match cur {
+                    LogicalPlan::Projection(x) => cur = x.input.as_ref(),
+                    LogicalPlan::SubqueryAlias(x) => cur = x.input.as_ref(),
+                    LogicalPlan::Filter(x) => cur = x.input.as_ref(),
+                    LogicalPlan::Sort(srt) => {
+                        if srt.fetch.is_none() {
+                            hit = true;
+                        }
+                        break;
+                    }
+                    _ => break,
+                }
+            }
+        }
+        Ok(TreeNodeRecursion::Continue)
+    });
+    hit
+}
+
+fn confirmed_root_cause(case: &Case) -> Option<&'static str> {
+    let w = Worker::new(case.mode);
+    w.load(&case.db);
+    let pl = plan_query(&w, &case.sql, std::slice::from_ref(&case.pipeline)).ok()?;
+    let opt = pl.outs[0].as_ref().ok()?;
+    let twin_passes = |repair: &str| {
+        let mut twin = case.clone();
+        twin.pipeline.rules.push(repair.to_string());
+        twin.pipeline.name = format!("{} + {repair}", case.pipeline.name);
+        run_case(&twin).is_ok()
+    };
+    if has_null_aware_join_without_keys(opt) && twin_passes("extract_equijoin_predicate") {
+        return Some(CAUSE_NULL_AWARE_NLJ);
+    }
+    if has_limit_over_plain_sort(opt) && twin_passes("push_down_limit") {
+        return Some(CAUSE_SORT_UNDER_LIMIT);
+    }
+    None
+}
+
 // ------------------------------------------------------------------ exploration
 
 #[derive(Default, Clone)]
@@ -433,6 +642,7 @@ struct RuleStat {
 }
 
 struct Fail {
+    mode: Mode,
     qi: usize,
     di: usize,
     pi: usize,
@@ -442,11 +652,16 @@ struct Fail {
 
 fn explore(ctx: &Ctx) {
     let tier = ctx.pick(Tier::Quick, Tier::Thorough);
-    let probe = Worker::new();
+    let probe = Worker::new(Mode::Default);
     let rule_names = probe.rule_names();
     let pipes = pipelines(&rule_names);
-    let all = grammar::queries(tier);
+    let mut all = grammar::queries(tier);
     let total = all.len();
+    for q in extra_queries() {
+        if !all.iter().any(|p| p.sql == q.sql) {
+            all.push(q);
+        }
+    }
     // queries the engine rejects statically with an honest "not implemented" are outside the fragment
     let mut rejected = vec![];
     let qs: Vec<GenQuery> = all
@@ -459,73 +674,117 @@ fn explore(ctx: &Ctx) {
             _ => true,
         })
         .collect();
-    let dbs = db::rich_databases();
+    // databases per query: the 12 rich databases + every database DB(n, D) over the tables the query
+    // reads (other tables empty) inside the largest bound of a fixed ladder that fits the budget
+    let budget = ctx.pick(60usize, 300usize);
+    let domain = db::Domain::quick();
+    let mut db_sets: BTreeMap<Vec<String>, Vec<(String, Database)>> = BTreeMap::new();
+    let mut db_bounds: Vec<Json> = vec![];
+    for q in &qs {
+        let mut tables = q.tables.clone();
+        tables.sort();
+        if db_sets.contains_key(&tables) {
+            continue;
+        }
+        let mut list = db::rich_databases();
+        let refs: Vec<&str> = tables.iter().map(|s| s.as_str()).collect();
+        // ladder of (max rows per table, max rows in total), most generous first
+        let ladder: Vec<(usize, usize)> = vec![(3, 3), (2, 4), (2, 3), (2, 2), (1, 3), (1, 2), (1, 1)];
+        if !refs.is_empty() {
+            if let Some((n, total)) = ladder.iter().copied().find(|(n, total)| db::count_dbs_bounded(&refs, &vec![*n; refs.len()], *total, &domain) <= budget) {
+                db::for_each_db_bounded(&refs, &vec![n; refs.len()], total, &domain, |d| {
+                    if d.total_rows() > 0 {
+                        list.push((format!("enum:{}", d.show()), d));
+                    }
+                });
+                db_bounds.push(json!({"tables": tables, "max_rows_per_table": n, "max_rows_total": total, "enumerated_databases": list.len() - 12}));
+            }
+        }
+        db_sets.insert(tables, list);
+    }
+    let dbs_of = |q: &GenQuery| -> &Vec<(String, Database)> {
+        let mut tables = q.tables.clone();
+        tables.sort();
+        &db_sets[&tables]
+    };
     ctx.set_extra(
         "bounds",
         json!({
             "queries": qs.len(), "queries_in_grammar_tier": total,
             "optimizer_rules": rule_names, "pipelines": pipes.len(),
             "pipeline_kinds": {"none": 1, "full": 1, "session": 1, "alone": rule_names.len(), "prefix": rule_names.len().saturating_sub(2), "minus": rule_names.len()},
-            "databases": dbs.iter().map(|(l, _)| l.clone()).collect::<Vec<_>>(),
+            "databases": "per query: the 12 rich databases + DB(n,D) over the tables the query reads (Domain::quick, other tables empty)",
+            "rich_databases": db::rich_databases().iter().map(|(l, _)| l.clone()).collect::<Vec<_>>(),
+            "enumerated_database_bounds": db_bounds, "enumerated_database_budget_per_query": budget,
             "config": "default, target_partitions=1, 1 partition / 1 batch MemTables",
         }),
     );
     ctx.set_extra("engine_rejected_queries", json!(rejected));
     ctx.assume("the SQL corpus (.slt) part of the quantifier is not enumerated by this check: plans come from grammar G only");
 
-    let order: Vec<usize> = {
-        let mut o: Vec<usize> = (0..qs.len()).collect();
+    // work items: every query under the default configuration; queries with a join or a UNION also with the
+    // two option-gated rules (filter_null_join_keys, unions_to_filter) switched on — they act on nothing else
+    let order: Vec<(Mode, usize)> = {
+        let mut o: Vec<(Mode, usize)> = (0..qs.len()).map(|i| (Mode::Default, i)).collect();
+        o.extend((0..qs.len()).filter(|i| qs[*i].tags.iter().any(|t| t.starts_with("join:") || t.starts_with("setop:union"))).map(|i| (Mode::GatedRulesOn, i)));
         if ctx.seed != 0 {
             let s = ctx.seed;
             o.sort_by_key(|i| mc_core::stable_hash(&(s, *i)));
         }
         o
     };
+    ctx.count("work_items(query,configuration)", order.len() as u64);
     let fails: Mutex<Vec<Fail>> = Mutex::new(vec![]);
     let rstats: Mutex<BTreeMap<String, RuleStat>> = Mutex::new(rule_names.iter().map(|r| (r.clone(), RuleStat::default())).collect());
     let kind_stats: Mutex<BTreeMap<String, [u64; 4]>> = Mutex::new(BTreeMap::new()); // per pipeline kind: plans changed, compared, not comparable, same-as-P
-    let make_case = |qi: usize, di: usize, pi: usize, class: Class| Case {
+    let make_case = |mode: Mode, qi: usize, di: usize, pi: usize, class: Class| Case {
+        mode,
         id: qs[qi].id.clone(),
         sql: qs[qi].sql.clone(),
         flags: qs[qi].flags.clone(),
         class,
-        db_label: dbs[di].0.clone(),
-        db: dbs[di].1.clone(),
+        db_label: dbs_of(&qs[qi])[di].0.clone(),
+        db: dbs_of(&qs[qi])[di].1.clone(),
         pipeline: pipes[pi].clone(),
     };
     let kind_of = |name: &str| name.split(':').next().unwrap_or("").to_string();
-    order.par_iter().for_each_init(Worker::new, |w, &qi| {
+    const KINDS: [&str; 6] = ["none", "full", "session", "alone", "prefix", "minus"];
+    let kind_idx: Vec<usize> = pipes.iter().map(|p| KINDS.iter().position(|k| *k == kind_of(&p.name)).unwrap_or(0)).collect();
+    let full_idx = pipes.iter().position(|p| p.name == "full").unwrap();
+    order.par_iter().for_each_init(|| [Worker::new(Mode::Default), Worker::new(Mode::GatedRulesOn)], |ws, &(mode, qi)| {
+        let w = &ws[if mode == Mode::Default { 0 } else { 1 }];
         if ctx.out_of_time() || fails.lock().unwrap().len() > 20_000 {
             return;
         }
         let q = &qs[qi];
         let pl = match plan_query(w, &q.sql, &pipes) {
             Ok(p) => p,
-            Err(e) => {
+            Err(_) => {
                 // not plannable at all: C01's business (counted)
                 ctx.count("queries_not_plannable", 1);
-                let _ = e;
                 return;
             }
         };
-        ctx.count("analyzed_plans", 1);
-        ctx.count("distinct_optimized_plans", pl.distinct.len() as u64 - 1);
-        let full_idx = pipes.iter().position(|p| p.name == "full").unwrap();
-        // ---- database-independent part: optimizer errors, schema, per-rule change counts
+        // per-query accumulators, merged once at the end (the shared maps are not touched per database)
+        let mut counts: BTreeMap<&'static str, u64> = BTreeMap::new();
+        let mut ks = [[0u64; 4]; 6]; // per pipeline kind: plans changed, result comparisons, not comparable, identical to P
+        let mut alone_nonempty: BTreeMap<usize, u64> = BTreeMap::new(); // pipeline index -> compared non-empty pairs
+        let mut nontrivial_pipes: Vec<bool> = vec![false; pipes.len()];
         let mut local_fail: Vec<Fail> = vec![];
+        *counts.entry("analyzed_plans").or_default() += 1;
+        *counts.entry("distinct_optimized_plans").or_default() += pl.distinct.len() as u64 - 1;
+        // ---- database-independent part: optimizer errors, schema, per-rule change counts
         {
             let mut rs = rstats.lock().unwrap();
-            let mut ks = kind_stats.lock().unwrap();
             for r in &pl.changed_in_full {
                 rs.entry(r.clone()).or_default().changed_in_full += 1;
             }
             for (pi, p) in pipes.iter().enumerate() {
                 let changed = pl.plan_of[pi].map(|i| i != 0).unwrap_or(false);
-                let e = ks.entry(kind_of(&p.name)).or_insert([0; 4]);
                 if changed {
-                    e[0] += 1;
+                    ks[kind_idx[pi]][0] += 1;
                 } else if pl.plan_of[pi] == Some(0) {
-                    e[3] += 1;
+                    ks[kind_idx[pi]][3] += 1;
                 }
                 if let Some(r) = p.name.strip_prefix("alone:") {
                     if changed {
@@ -540,50 +799,54 @@ fn explore(ctx: &Ctx) {
                 match &pl.outs[pi] {
                     Err(e) => {
                         let kind = if e.starts_with("panic:") { "optimizer-panic" } else { "optimizer-error" };
-                        local_fail.push(Fail { qi, di: 0, pi, kind, what: format!("the optimizer fails on a valid analyzed plan: {}", short(e)) });
+                        local_fail.push(Fail { mode, qi, di: 0, pi, kind, what: format!("the optimizer fails on a valid analyzed plan: {}", short(e)) });
                     }
                     Ok(o) => {
                         if let Err(w) = check_schema(&pl.analyzed, o) {
-                            local_fail.push(Fail { qi, di: 0, pi, kind: "schema", what: w });
+                            local_fail.push(Fail { mode, qi, di: 0, pi, kind: "schema", what: w });
                         }
                     }
                 }
             }
         }
         // ---- per database
-        for (di, (label, dbv)) in dbs.iter().enumerate() {
+        for (di, (label, dbv)) in dbs_of(q).iter().enumerate() {
             if ctx.out_of_time() {
                 break;
             }
             let class = match classify(dbv, q) {
                 Ok(c) => c,
-                Err(e) => {
-                    ctx.machinery_error(format!("reference cannot evaluate {}: {e}", q.sql));
-                    return;
+                Err(_) => {
+                    // the reference interpreter cannot classify the pair (ambiguity unknown): not compared
+                    *counts.entry("pairs_reference_unsupported_skipped").or_default() += 1;
+                    continue;
                 }
             };
             match class {
-                Class::Strict => ctx.count("pairs_strict", 1),
-                Class::MayFail => ctx.count("pairs_may_fail", 1),
+                Class::Strict => *counts.entry("pairs_strict").or_default() += 1,
+                Class::MayFail => *counts.entry("pairs_may_fail").or_default() += 1,
                 Class::Ambiguous => {
-                    ctx.count("pairs_ambiguous_skipped", 1);
+                    *counts.entry("pairs_ambiguous_skipped").or_default() += 1;
                     continue;
                 }
             }
             w.load(dbv);
             let runs = run_on_db(w, &pl, &pipes);
-            let executed = runs.execs.iter().filter(|e| e.is_some()).count() as u64;
-            ctx.evals(executed);
+            ctx.evals(runs.execs.iter().filter(|e| e.is_some()).count() as u64);
             let Some(r) = runs.reference else {
-                ctx.count("pairs_without_executable_reference(neither_P_nor_full_pipeline_runs)", 1);
+                *counts.entry("pairs_without_executable_reference(neither_P_nor_full_pipeline_runs)").or_default() += 1;
                 continue;
             };
-            if runs.reference_is_full {
-                ctx.count(if matches!(runs.execs[0], Some(Exec::NotExecutable(_))) { "pairs_compared_against_full_pipeline(P_not_plannable_physically)" } else { "pairs_compared_against_full_pipeline(P_fails_at_run_time)" }, 1);
-            } else {
-                ctx.count("pairs_compared_against_unoptimized_plan", 1);
-            }
             let Some(Exec::Rows(reference)) = runs.execs[r].as_ref() else { continue };
+            *counts
+                .entry(if !runs.reference_is_full {
+                    "pairs_compared_against_unoptimized_plan"
+                } else if matches!(runs.execs[0], Some(Exec::NotExecutable(_))) {
+                    "pairs_compared_against_full_pipeline(P_not_plannable_physically)"
+                } else {
+                    "pairs_compared_against_full_pipeline(P_fails_at_run_time)"
+                })
+                .or_default() += 1;
             let ref_nonempty = !reference.rows.is_empty();
             for (pi, p) in pipes.iter().enumerate() {
                 let Some(idx) = pl.plan_of[pi] else { continue };
@@ -591,23 +854,21 @@ fn explore(ctx: &Ctx) {
                     continue; // the reference itself (or a plan identical to it)
                 }
                 let got = runs.execs[idx].as_ref().unwrap();
-                let mut ks = kind_stats.lock().unwrap();
-                let ke = ks.entry(kind_of(&p.name)).or_insert([0; 4]);
                 match judge(reference, got, &q.flags, class, !runs.reference_is_full) {
-                    Ok(Agreement::NotComparable) => ke[2] += 1,
+                    Ok(Agreement::NotComparable) => ks[kind_idx[pi]][2] += 1,
                     Ok(a) => {
-                        ke[1] += 1;
-                        drop(ks);
+                        ks[kind_idx[pi]][1] += 1;
                         if a == Agreement::ToleratedError {
-                            ctx.count("may_fail_error_on_one_side_tolerated", 1);
+                            *counts.entry("may_fail_error_on_one_side_tolerated").or_default() += 1;
                         }
                         if a == Agreement::Same && ref_nonempty {
-                            ctx.nontrivial(&(&q.sql, label, &p.name));
-                            if let Some(rn) = p.name.strip_prefix("alone:") {
-                                rstats.lock().unwrap().entry(rn.to_string()).or_default().alone_compared_nonempty += 1;
+                            nontrivial_pipes[pi] = true;
+                            *counts.entry("nontrivial_comparisons(query,database,pipeline)").or_default() += 1;
+                            if p.name.starts_with("alone:") {
+                                *alone_nonempty.entry(pi).or_default() += 1;
                             }
                             let h = mc_core::stable_hash(&(&q.sql, label, &p.name));
-                            if ctx.want_sample() && q.size > 14 && dbv.total_rows() >= 8 && p.name.starts_with("alone:") && h % 13 == 0 {
+                            if q.size > 14 && dbv.total_rows() >= 8 && p.name.starts_with("alone:") && h % 13 == 0 && ctx.want_sample() {
                                 ctx.sample(json!({
                                     "sql": q.sql, "db": dbv.show(), "pipeline": p.name,
                                     "analyzed": format!("{}", pl.analyzed.display_indent()),
@@ -615,19 +876,40 @@ fn explore(ctx: &Ctx) {
                                     "result": if let Exec::Rows(x) = got { show_rows(&x.rows) } else { String::new() },
                                 }));
                             }
-                            if h % 256 == 0 {
-                                ctx.count("determinism_replays", 1);
-                                if let Err(e) = run_case(&make_case(qi, di, pi, class)) {
+                            if h % 4096 == 0 {
+                                *counts.entry("determinism_replays").or_default() += 1;
+                                if let Err(e) = run_case(&make_case(mode, qi, di, pi, class)) {
                                     ctx.machinery_error(format!("case passed in the sweep but fails when rebuilt from scratch: {e}"));
                                 }
                             }
                         }
                     }
-                    Err((kind, what)) => {
-                        drop(ks);
-                        local_fail.push(Fail { qi, di, pi, kind, what });
-                    }
+                    Err((kind, what)) => local_fail.push(Fail { mode, qi, di, pi, kind, what }),
                 }
+            }
+        }
+        // ---- merge
+        for (pi, hit) in nontrivial_pipes.iter().enumerate() {
+            if *hit {
+                ctx.nontrivial(&(mode, &q.sql, &pipes[pi].name));
+            }
+        }
+        for (k, v) in counts {
+            ctx.count(k, v);
+        }
+        {
+            let mut g = kind_stats.lock().unwrap();
+            for (k, v) in KINDS.iter().zip(ks.iter()) {
+                let e = g.entry(k.to_string()).or_insert([0; 4]);
+                for i in 0..4 {
+                    e[i] += v[i];
+                }
+            }
+        }
+        if !alone_nonempty.is_empty() {
+            let mut rs = rstats.lock().unwrap();
+            for (pi, n) in alone_nonempty {
+                rs.entry(pipes[pi].name["alone:".len()..].to_string()).or_default().alone_compared_nonempty += n;
             }
         }
         if !local_fail.is_empty() {
@@ -672,9 +954,37 @@ fn explore(ctx: &Ctx) {
     // (alone < prefix < minus < full < session; within a kind, list order); one violation per (pipeline, kind of failure)
     let fails = fails.into_inner().unwrap();
     ctx.count("failing_evaluations", fails.len() as u64);
-    let mut per_pair: BTreeMap<(usize, usize, &'static str), &Fail> = BTreeMap::new();
+    // (1) confirmed root causes: decided once per (configuration, query, pipeline) on its first failing database
+    let class_of = |f: &Fail| classify(&dbs_of(&qs[f.qi])[f.di].1, &qs[f.qi]).unwrap_or(Class::Strict);
+    let mut cause_memo: BTreeMap<(Mode, usize, usize), Option<&'static str>> = BTreeMap::new();
     for f in &fails {
-        let k = (f.qi, f.di, f.kind);
+        if f.kind == "rows" || f.kind == "error" || f.kind == "panic" {
+            cause_memo.entry((f.mode, f.qi, f.pi)).or_insert_with(|| confirmed_root_cause(&make_case(f.mode, f.qi, f.di, f.pi, class_of(f))));
+        }
+    }
+    let cause_of = |f: &Fail| cause_memo.get(&(f.mode, f.qi, f.pi)).copied().flatten();
+    // key -> (rank, fail, number of failing (query, database) pairs)
+    let mut by_key: BTreeMap<String, ((usize, usize, u8, usize), &Fail, std::collections::BTreeSet<(Mode, usize, usize)>)> = BTreeMap::new();
+    let mut unexplained: Vec<&Fail> = vec![];
+    for f in &fails {
+        match cause_of(f) {
+            Some(c) => {
+                let rank = (f.qi, f.di, pipeline_rank(&pipes[f.pi].name), f.pi);
+                let e = by_key.entry(c.to_string()).or_insert((rank, f, Default::default()));
+                e.2.insert((f.mode, f.qi, f.di));
+                if rank < e.0 {
+                    e.0 = rank;
+                    e.1 = f;
+                }
+            }
+            None => unexplained.push(f),
+        }
+    }
+    // (2) the rest: each failing (configuration, query, database) is attributed to its simplest failing pipeline
+    // (alone < prefix < minus < full < session; within a kind, list order); one violation per (pipeline, kind of failure)
+    let mut per_pair: BTreeMap<(Mode, usize, usize, &'static str), &Fail> = BTreeMap::new();
+    for f in unexplained {
+        let k = (f.mode, f.qi, f.di, f.kind);
         let better = match per_pair.get(&k) {
             Some(g) => (pipeline_rank(&pipes[f.pi].name), f.pi) < (pipeline_rank(&pipes[g.pi].name), g.pi),
             None => true,
@@ -683,29 +993,23 @@ fn explore(ctx: &Ctx) {
             per_pair.insert(k, f);
         }
     }
-    let mut by_key: BTreeMap<String, ((usize, usize), &Fail, u64)> = BTreeMap::new();
     for f in per_pair.values() {
-        let key = format!("optimizer-not-result-preserving[{}]:{}", pipes[f.pi].name, f.kind);
-        let rank = (f.qi, f.di);
-        match by_key.get_mut(&key) {
-            Some(e) => {
-                e.2 += 1;
-                if rank < e.0 {
-                    e.0 = rank;
-                    e.1 = f;
-                }
-            }
-            None => {
-                by_key.insert(key, (rank, f, 1));
-            }
+        let key = format!("optimizer-not-result-preserving[{}{}]:{}", if f.mode == Mode::GatedRulesOn { "gated-rules-on " } else { "" }, pipes[f.pi].name, f.kind);
+        let rank = (f.qi, f.di, pipeline_rank(&pipes[f.pi].name), f.pi);
+        let e = by_key.entry(key).or_insert((rank, f, Default::default()));
+        e.2.insert((f.mode, f.qi, f.di));
+        if rank < e.0 {
+            e.0 = rank;
+            e.1 = f;
         }
     }
-    for (key, (_, f, n)) in by_key {
-        let class = classify(&dbs[f.di].1, &qs[f.qi]).unwrap_or(Class::Strict);
-        let case = make_case(f.qi, f.di, f.pi, class);
+    for (key, (_, f, pairs)) in by_key {
+        let case = make_case(f.mode, f.qi, f.di, f.pi, class_of(f));
+        let n = pairs.len();
+        ctx.count(&format!("failing_pairs:{}", key.split(':').next().unwrap_or("")), n as u64);
         ctx.violation(
             key,
-            format!("{} on {} [{}] under pipeline [{}]: {} [{n} failing (query, database) pair(s) attributed to this pipeline; this is the simplest]", case.sql, case.db_label, case.db.show(), case.pipeline.name, f.what),
+            format!("{} on {} [{}] under pipeline [{}]: {} [{n} failing (query, database) pair(s) with this key; this is the simplest]", case.sql, case.db_label, case.db.show(), case.pipeline.name, f.what),
             serde_json::to_value(&case).unwrap(),
         );
     }
@@ -716,14 +1020,42 @@ fn explore(ctx: &Ctx) {
 fn debug_main(args: &[String]) -> bool {
     let arg = |name: &str| args.iter().position(|a| a == name).and_then(|i| args.get(i + 1)).cloned();
     if args.iter().any(|a| a == "--rules") {
-        let w = Worker::new();
+        let w = Worker::new(Mode::Default);
         for p in pipelines(&w.rule_names()) {
             println!("{}\t{}", p.name, p.rules.len());
         }
         return true;
     }
+    if args.iter().any(|a| a == "--df-demo") {
+        // Is the `Limit -> (order-preserving node) -> Sort` shape, which only partial pipelines produce from SQL,
+        // reachable with the full default optimizer?  DataFrame: sort, filter, limit, aggregate.
+        use datafusion::functions_aggregate::expr_fn::sum;
+        use datafusion::prelude::{col, lit};
+        let w = Worker::new(Mode::Default);
+        let label = arg("--db").unwrap_or("skewed".into());
+        let dbv = db::rich_databases().into_iter().find(|(l, _)| *l == label).map(|x| x.1).unwrap_or_else(Database::empty);
+        w.load(&dbv);
+        println!("db: {}", dbv.show());
+        let r = mc_core::catch(|| {
+            engine::block_on(async {
+                let df = w.ctx.table("t").await.unwrap().sort(vec![col("a").sort(true, false), col("b").sort(true, false)]).unwrap().filter(col("b").gt(lit(1))).unwrap().limit(0, Some(1)).unwrap();
+                let rows_df = df.clone();
+                let agg = df.aggregate(vec![], vec![sum(col("b"))]).unwrap();
+                println!("--- logical (unoptimized)\n{}", agg.logical_plan().display_indent());
+                println!("--- logical (optimized)\n{}", agg.clone().into_optimized_plan().unwrap().display_indent());
+                let phys = agg.clone().create_physical_plan().await.unwrap();
+                println!("--- physical\n{}", datafusion::physical_plan::displayable(phys.as_ref()).indent(false));
+                let first = engine::run_df(rows_df).map(|r| show_rows(&r.rows));
+                let total = engine::run_df(agg).map(|r| show_rows(&r.rows));
+                (first, total)
+            })
+        });
+        println!("sort(a,b).filter(b>1).limit(1)            -> {:?}", r.as_ref().map(|x| &x.0));
+        println!("sort(a,b).filter(b>1).limit(1).sum(b)     -> {:?}", r.as_ref().map(|x| &x.1));
+        return true;
+    }
     if let Some(sql) = arg("--show") {
-        let w = Worker::new();
+        let w = Worker::new(if args.iter().any(|a| a == "--gated-on") { Mode::GatedRulesOn } else { Mode::Default });
         let label = arg("--db").unwrap_or("all_distinct".into());
         let dbv = db::rich_databases().into_iter().find(|(l, _)| *l == label).map(|x| x.1).unwrap_or_else(Database::empty);
         w.load(&dbv);
@@ -751,7 +1083,9 @@ fn debug_main(args: &[String]) -> bool {
 }
 
 fn main() {
-    if debug_main(&mc_core::extra_args()) {
+    let args = mc_core::extra_args();
+    let _ = PLANT.set(args.iter().position(|a| a == "--plant").and_then(|i| args.get(i + 1)).cloned());
+    if debug_main(&args) {
         return;
     }
     mc_core::quiet_panics();
@@ -760,9 +1094,9 @@ fn main() {
         Level::Exploration,
         "every query of grammar G (tier list) analyzed once; the analyzed plan P optimized by every pipeline of {none, full default list, SessionState::optimize, each rule alone, \
          each proper prefix of the default list, default list minus one rule}; every distinct resulting plan is planned physically without further logical optimization and executed on \
-         each of the 12 rich databases; oracle: field names + logically equivalent types equal to P's schema, rows equal to P's rows (to the full pipeline's rows when P cannot be planned \
+         each of the 12 rich databases and every database DB(n,D) over the tables the query reads inside a budgeted bound; oracle: field names + logically equivalent types equal to P's schema, rows equal to P's rows (to the full pipeline's rows when P cannot be planned \
          physically) under the query's ORDER BY / LIMIT comparison rule, optimizer errors are violations; one evaluation = one execution of a distinct plan on a database; \
-         non-trivial = distinct (query, database, pipeline) whose optimized plan differs structurally from the reference plan and whose agreeing result is non-empty",
+         non-trivial = distinct (query, pipeline) whose optimized plan differs structurally from the reference plan and agrees with it on at least one database with a non-empty result",
         explore,
         replay,
     );
